@@ -83,7 +83,7 @@
           (fail "chunk" s (string/format "cuts=%j whole=[%s] chunked=[%s]" cuts ref r))))
       (try-cuts (range 1 n))
       (loop [a :range [1 n]] (try-cuts [a]))
-      (loop [a :range [1 n] b :range [(+ a 1) n]] (try-cuts [a b]))
+      (when (<= n 64) (loop [a :range [1 n] b :range [(+ a 1) n]] (try-cuts [a b])))
       (each k [2 3 4 5 7] (try-cuts (range k n k))))))
 
 (defn check-queries [s n ref]
@@ -183,9 +183,12 @@
         (c11/drain p ev)
         (when (parser/has-more p)
           (def tup (parser/produce p true))
-          (def [l c] (tuple/sourcemap tup))
-          (buffer/format ev "V%d:%d " l c)
-          (c11/vprint (in tup 0) ev)
+          (if (and (tuple? tup) (= 1 (length tup)))
+            (do
+              (def [l c] (tuple/sourcemap tup))
+              (buffer/format ev "V%d:%d " l c)
+              (c11/vprint (in tup 0) ev))
+            (buffer/push ev "V?:? not-a-wrapped-value"))
           (buffer/push ev "\n"))))
     (c11/finish p ev)
     (++ runs)
